@@ -111,7 +111,13 @@ class Run:
         da = a.nodes
         coords = sorted([str(k), [str(d) for d in c.dims], [str(v) for v in np.atleast_1d(c.values).tolist()]]
                         for k, c in da.coords.items())
-        return [key, [str(d) for d in da.dims], coords, [self.ident(n) for n in np.atleast_1d(da.values).flatten().tolist()]]
+        flat = np.atleast_1d(da.values).flatten().tolist()
+        return [key, [str(d) for d in da.dims], coords, [self.ident(n) for n in flat], [self.payload(n) for n in flat]]
+
+    def payload(self, n) -> str:
+        """The payload of a node as it is NOW, by value (callable identity, args, kwargs)."""
+        func, args, kwargs = (n.parent if isinstance(n, Output) else n).payload
+        return f"{self.funcs(func)}|{list(args)!r}|{sorted(kwargs.items())!r}"
 
     def snaps(self) -> list:
         return [self.snap(k, a) for k, a in self.actions]
@@ -162,6 +168,12 @@ class Run:
             return cur.add(op["v"])
         if k in ("sum", "mean"):
             return getattr(cur, k)(d)
+        if k in ("sum_kw", "mean_kw"):
+            return getattr(cur, k[:-3])(d, backend_kwargs={"p": op["v"]})
+        if k == "concatenate_kw":
+            return cur.concatenate(d, backend_kwargs={"p": op["v"]})
+        if k == "expand_i":
+            return cur.expand("e", op["v"], dim_size=2)
         if k == "sum_keep":
             return cur.sum(d, keep_dim=True)
         if k in ("add", "subtract", "multiply", "divide", "power"):
@@ -178,10 +190,10 @@ class Run:
             return cur.select({d: cur.nodes.coords[d].values[0].item()})
         if k == "isel":
             return cur.isel({d: 0})
-        if k in ("stack", "concatenate"):
-            return getattr(cur, k)(d)
-        if k == "flatten":
-            return cur.flatten(d)
+        if k == "concatenate":
+            return cur.concatenate(d)
+        if k in ("stack", "flatten"):      # default backend_kwargs on purpose
+            return getattr(cur, k)(d, axis=op["v"])
         if k == "expand":
             return cur.expand(d, 0, dim_size=op["v"])
         if k == "transform":
@@ -232,8 +244,11 @@ class Run:
         return sorted(out, key=lambda d: (d["name"], d["fid"], d["args"], d["kwargs"], d["inputs"]))
 
 
+FUNCS = Registry()      # callable identity -> small integer, stable over the whole run (names are compared across cases)
+
+
 def observe(case: dict) -> dict:
-    funcs = Registry()
+    funcs = FUNCS
     builds, nodes, steps = [], [], []
     for _ in range(2):                      # two independent builds of the same case
         run = Run(funcs)
